@@ -42,13 +42,17 @@ func NewBinaryProtoFunc() erpc.ProtoFunc {
 		p.tProtocol = thrift.NewTHeaderProtocol(&BaseTTransport{
 			ReadWriteCounter: p.rwCounter,
 		})
+		p.wProtocol = thrift.NewTHeaderProtocol(&BaseTTransport{
+			ReadWriteCounter: p.rwCounter,
+		})
 		return p
 	}
 }
 
 type tBinaryProto struct {
 	rwCounter  *utils.ReadWriteCounter
-	tProtocol  *thrift.THeaderProtocol
+	tProtocol  *thrift.THeaderProtocol // used by Unpack only
+	wProtocol  *thrift.THeaderProtocol // used by Pack only: a THeaderProtocol is not safe for reading and writing at the same time
 	packLock   sync.Mutex
 	unpackLock sync.Mutex
 	name       string
@@ -65,7 +69,7 @@ func (t *tBinaryProto) Version() (byte, string) {
 func (t *tBinaryProto) Pack(m erpc.Message) error {
 	err := t.binaryPack(m)
 	if err != nil {
-		t.tProtocol.Transport().Close()
+		t.wProtocol.Transport().Close()
 	}
 	return err
 }
@@ -94,24 +98,24 @@ func (t *tBinaryProto) binaryPack(m erpc.Message) error {
 	defer t.packLock.Unlock()
 	t.rwCounter.WriteCounter.Zero()
 
-	if err := writeMessageBegin(t.tProtocol, m); err != nil {
+	if err := writeMessageBegin(t.wProtocol, m); err != nil {
 		return err
 	}
 
-	if err = t.tProtocol.WriteBinary(bodyBytes); err != nil {
+	if err = t.wProtocol.WriteBinary(bodyBytes); err != nil {
 		return err
 	}
 
-	t.tProtocol.ClearWriteHeaders()
-	t.tProtocol.SetWriteHeader(HeaderStatus, m.Status(true).QueryString())
-	t.tProtocol.SetWriteHeader(HeaderMeta, goutil.BytesToString(m.Meta().QueryString()))
-	t.tProtocol.SetWriteHeader(HeaderBodyCodec, string([]byte{m.BodyCodec()}))
-	t.tProtocol.SetWriteHeader(HeaderXferPipe, goutil.BytesToString(m.XferPipe().IDs()))
+	t.wProtocol.ClearWriteHeaders()
+	t.wProtocol.SetWriteHeader(HeaderStatus, m.Status(true).QueryString())
+	t.wProtocol.SetWriteHeader(HeaderMeta, goutil.BytesToString(m.Meta().QueryString()))
+	t.wProtocol.SetWriteHeader(HeaderBodyCodec, string([]byte{m.BodyCodec()}))
+	t.wProtocol.SetWriteHeader(HeaderXferPipe, goutil.BytesToString(m.XferPipe().IDs()))
 
-	if err = t.tProtocol.WriteMessageEnd(); err != nil {
+	if err = t.wProtocol.WriteMessageEnd(); err != nil {
 		return err
 	}
-	if err = t.tProtocol.Flush(m.Context()); err != nil {
+	if err = t.wProtocol.Flush(m.Context()); err != nil {
 		return err
 	}
 
